@@ -133,8 +133,14 @@ theorem bzip2_derand_eq (bs : Array UInt8) :
 `0xFFFFFFFF` is the oracle's block CRC of the same bytes. -/
 theorem crc_link (bs : List UInt8) :
     Model.Emit.crcBytes 0xFFFFFFFF bs ^^^ 0xFFFFFFFF = Basic.crc32Arr bs.toArray := by
+  have hstep : ∀ (s : UInt32) (b : UInt8), Model.Emit.crcStep s b = Basic.crcStep s b := by
+    intro s b; unfold Model.Emit.crcStep Basic.crcStep; rfl
   have h1 : ∀ (s : UInt32) (l : List UInt8), Model.Emit.crcBytes s l = Basic.crcRun s l := by
-    intro s l; rfl
+    intro s l
+    unfold Model.Emit.crcBytes Basic.crcRun
+    induction l generalizing s with
+    | nil => rfl
+    | cons b t ih => simp only [List.foldl_cons, hstep]; exact ih _
   have h2 : (0xFFFFFFFF : UInt32) = -1 := by decide
   rw [Basic.crc32Arr_eq, Basic.crc32, h1]
   show Basic.crcRun 0xFFFFFFFF bs ^^^ 0xFFFFFFFF = ~~~ Basic.crcRun 0xFFFFFFFF bs
